@@ -33,6 +33,9 @@ pub mod q {
         wf_harness!(s_padded, SqPaddedC, 6, 0);
         wf_harness!(s_packed, SqPackedC, 10, 0);
         wf_harness!(e_data, EqData, 6, 0);
+        wf_harness!(arr_packed, [u16; 3], 8, 0);
+        wf_harness!(arr_bool, [bool; 2], 6, 0);
+        wf_harness!(boxslice, Box<[u32]>, 10, 2);
     }
     pub mod r {
         use super::*;
@@ -51,7 +54,6 @@ pub mod t {
         use super::*;
         wf_harness!(u128_, u128, 18, 0);
         wf_harness!(opt, Option<u32>, 6, 0);
-        wf_harness!(arr, [u16; 3], 8, 0);
         wf_harness!(vec_usize, Vec<usize>, 10, 2);
         wf_harness!(s_mixed, SqMixed, 10, 1);
         wf_harness!(s_nested, SqNested, 10, 0);
